@@ -11,7 +11,7 @@ import (
 
 var h04fUnits = []string{"ns/op", "sec/op", "B/op", "MB/s", "B/s"}
 var h04fBase = []string{"sec/op", "sec/op", "B/op", "B/s", "B/s"}
-var h04fQueries = []string{".unit:ns/op", ".unit:sec/op", ".unit:MB/s", ".unit:B/s", "-.unit:ns/op", ".unit:(ns/op OR B/op)"}
+var h04fQueries = []string{".unit:ns/op", ".unit:sec/op", ".unit:MB/s", ".unit:B/s", "-.unit:ns/op", ".unit:(ns/op OR B/op)", ".unit:/^ns/", "-.unit:/^MB/", ".unit:/^(sec|B)\\//"}
 
 func h04fWant(q int, written, base string) bool {
 	named := func(n string) bool { return written == n || base == n }
@@ -26,6 +26,12 @@ func h04fWant(q int, written, base string) bool {
 		return named("B/s")
 	case 4:
 		return !named("ns/op")
+	case 6: // regular expressions are matched against the written and the base unit alike
+		return written == "ns/op"
+	case 7:
+		return written != "MB/s"
+	case 8:
+		return true // every listed unit has base sec/... or B/...
 	}
 	return named("ns/op") || named("B/op")
 }
